@@ -725,8 +725,86 @@ func runReplay(o *options, g *Gen, v *Verdict, model map[string]string, outDir s
 	return c.replayFunc(o, v, outDir)
 }
 
+// replayWithBuilder: a typed builder is a Go test file with {{spec:EXPR}} placeholders; each EXPR is a
+// spec expression over the function's parameters, replaced by its integer value in the model.
+func (c *FnCtx) replayWithBuilder(o *options, v *Verdict, outDir, tmplPath string) (bool, string) {
+	data, err := os.ReadFile(tmplPath)
+	if err != nil {
+		return false, err.Error()
+	}
+	text := string(data)
+	plan := &valuePlan{}
+	type ph struct {
+		raw  string
+		term string
+	}
+	var phs []ph
+	rest := text
+	for {
+		i := strings.Index(rest, "{{spec:")
+		if i < 0 {
+			break
+		}
+		j := strings.Index(rest[i:], "}}")
+		if j < 0 {
+			break
+		}
+		raw := rest[i : i+j+2]
+		expr := rest[i+7 : i+j]
+		rest = rest[i+j+2:]
+		e, err := parseSpecExpr(expr)
+		if err != nil {
+			return false, "builder placeholder: " + err.Error()
+		}
+		tv, err := c.evalSpec(e, c.envFor(c.entry, c.entry))
+		if err != nil {
+			return false, "builder placeholder: " + err.Error()
+		}
+		phs = append(phs, ph{raw, plan.ask(tv.t)})
+	}
+	vals, err := fetchValues(v, plan, c.g.u)
+	if err != nil {
+		return false, "model values: " + err.Error()
+	}
+	b := &goBuilder{c: c, vals: vals}
+	for _, p := range phs {
+		val, _ := b.intVal(Term{p.term, SInt})
+		if val == "true" {
+			val = "1"
+		} else if val == "false" {
+			val = "0"
+		}
+		text = strings.ReplaceAll(text, p.raw, val)
+	}
+	pkgName := "main"
+	for _, l := range strings.Split(text, "\n") {
+		if strings.HasPrefix(l, "package ") {
+			pkgName = strings.TrimSpace(strings.TrimPrefix(l, "package "))
+			break
+		}
+	}
+	_ = pkgName
+	goFile := filepath.Join(outDir, "replay_"+sanitizeFile(v.Obl.Name)+"_test.go")
+	if err := os.WriteFile(goFile, []byte(text), 0o644); err != nil {
+		return false, err.Error()
+	}
+	return c.execGoTest(o, goFile, c.fn.Pkg.Pkg, nil)
+}
+
+func builderPath(o *options, c *FnCtx) string {
+	name := c.pkgName() + "." + sanitizeFile(c.spec.Name) + ".go.tmpl"
+	p := filepath.Join(o.replayD, "builders", name)
+	if _, err := os.Stat(p); err == nil {
+		return p
+	}
+	return ""
+}
+
 func (c *FnCtx) replayFunc(o *options, v *Verdict, outDir string) (bool, string) {
 	fn := c.fn
+	if bp := builderPath(o, c); bp != "" {
+		return c.replayWithBuilder(o, v, outDir, bp)
+	}
 	plan := &valuePlan{}
 	for _, p := range fn.Params {
 		c.planValue(plan, c.regs[p].t, p.Type(), 2)
@@ -886,6 +964,11 @@ func (c *FnCtx) runGoTest(o *options, v *Verdict, outDir string, pkg *types.Pack
 	if err := os.WriteFile(goFile, []byte(src.String()), 0o644); err != nil {
 		return false, err.Error()
 	}
+	return c.execGoTest(o, goFile, pkg, append(append([]string{}, b.partial...), tr.notes...))
+}
+
+// execGoTest injects the test file into the package directory with -overlay and runs it.
+func (c *FnCtx) execGoTest(o *options, goFile string, pkg *types.Package, notes []string) (bool, string) {
 	// package directory
 	rel := strings.TrimPrefix(pkg.Path(), "github.com/celestiaorg/celestia-node")
 	rel = strings.TrimPrefix(rel, "/")
@@ -906,7 +989,6 @@ func (c *FnCtx) runGoTest(o *options, v *Verdict, outDir string, pkg *types.Pack
 	err := cmd.Run()
 	text := out.String()
 	log := fmt.Sprintf("test file: %s\ncommand: (cd %s && go test -overlay %s -vet=off -count=1 -timeout 120s -run '^TestVerifReplay$' ./%s)\n%s", goFile, o.repo, ovFile, rel, tail(text, 30))
-	notes := append(append([]string{}, b.partial...), tr.notes...)
 	if len(notes) > 0 {
 		log += "\nreplay notes: " + strings.Join(notes, "; ")
 	}
